@@ -398,7 +398,7 @@ fn wop() -> impl Strategy<Value = WOp> {
     ]
 }
 
-fn strategy() -> impl Strategy<Value = Case> {
+pub fn strategy() -> impl Strategy<Value = Case> {
     let phase = (prop::collection::vec(wop(), 0..8), prop::collection::vec(wop(), 0..8), prop::bool::weighted(0.06))
         .prop_map(|(during, after, after_on_thread)| Phase { during, after, after_on_thread });
     (0u8..3, prop::collection::vec(phase, 0..5), prop::collection::vec(any::<u16>(), 0..8), prop::bool::weighted(0.04))
